@@ -73,7 +73,13 @@ results; read-only re-entrancy (nested traversal of the same container from a vi
 read-only calls; boundary keys (0, SIZE_MAX, 2^63, 2^32) as first keys after init/resize/clear; run-structured and almost-sorted
 sort inputs; elements of 257..5000 bytes; related re-allocations up to 1 MiB; what a failed call must not remember; keys adversarial
 for multiplicative hashing at any precision; stray copies at 2^16..2^46 distances; the library's global symbols outside cstl_; the
-library as shipped without any sanitizer, and MemorySanitizer.  Find something else.
+library as shipped without any sanitizer, and MemorySanitizer.
+And most recently: work measured as memory pages touched per call; forced finishes on large tables after partial progress; clients
+built with -Os/-O3/-Ofast/-fPIC/-pthread/-ffast-math/_FORTIFY_SOURCE; extern objects of the headers; overflow argument classes on
+strings of 4 KiB..140 KiB; clear callbacks that clear another container of the same type; zero counts and zero element sizes;
+100 KiB..1 MiB re-allocations under allocation failure; unfair schedules in which a lock holder is frozen while waiters spin
+hundreds of times.  Also note: they check what the statement says, not today's implementation pattern (a pooling allocator inside
+the map would be accepted).  Find something else.
 
 Think about interactions that a test author is unlikely to combine: operation X immediately after operation Y in
 state Z; the second use of an object after it was cleared/moved/swapped; an argument that is legal but unusual; a
